@@ -117,21 +117,23 @@ type c15bClient struct {
 }
 
 type c15bWorld struct {
-	x       *hysim.Run
-	fab     *simnet.Fabric
-	stats   TrafficStatsServer
-	srv     server.Server
-	srvDone chan struct{}
-	srvAddr *net.UDPAddr
-	clients map[int]*c15bClient
-	allowed map[string][2]uint64 // per user: bytes the server logged as allowed
-	handed  map[string][2]uint64 // per user: sum of cleared snapshots
-	inflight map[string][2]uint64 // per user: reports handed to the stats server that have not returned yet
-	kicked  map[string]int       // 1 while a kick has been acknowledged and no report of that user was refused since
-	kickBase map[string]int      // refusals seen when the pending kick was issued
-	refused map[string]int
-	dirty   bool // something happened whose effect on the connection set the harness cannot predict exactly
-	nconn   int
+	x             *hysim.Run
+	fab           *simnet.Fabric
+	stats         TrafficStatsServer
+	srv           server.Server
+	srvDone       chan struct{}
+	srvAddr       *net.UDPAddr
+	clients       map[int]*c15bClient
+	allowed       map[string][2]uint64 // per user: bytes the server logged as allowed
+	handed        map[string][2]uint64 // per user: sum of cleared snapshots
+	inflight      map[string][2]uint64 // per user: reports handed to the stats server that have not returned yet
+	kicked        map[string]int       // 1 while a kick has been acknowledged and no report of that user was refused since
+	kickBase      map[string]int       // refusals seen when the pending kick was issued
+	goneSinceKick map[string]int       // clients of the user the harness itself closed or blackholed while a kick was pending
+	lossy         bool
+	refused       map[string]int
+	dirty         bool // something happened whose effect on the connection set the harness cannot predict exactly
+	nconn         int
 }
 
 // recording wrapper: forwards to the real stats server
@@ -165,8 +167,10 @@ func (l *c15bLogger) LogOnlineState(id string, online bool) {
 	l.w.x.Ev("LogOnlineState(%s, %v)", id, online)
 	l.w.stats.LogOnlineState(id, online)
 }
-func (l *c15bLogger) TraceStream(s server.HyStream, st *server.StreamStats) { l.w.stats.TraceStream(s, st) }
-func (l *c15bLogger) UntraceStream(s server.HyStream)                        { l.w.stats.UntraceStream(s) }
+func (l *c15bLogger) TraceStream(s server.HyStream, st *server.StreamStats) {
+	l.w.stats.TraceStream(s, st)
+}
+func (l *c15bLogger) UntraceStream(s server.HyStream) { l.w.stats.UntraceStream(s) }
 
 type c15bAuth struct{}
 
@@ -260,7 +264,7 @@ func (w *c15bWorld) get(path string) (int, []byte) {
 
 func execC15b(x *hysim.Run) {
 	sc := x.Script
-	w := &c15bWorld{x: x, clients: map[int]*c15bClient{}, allowed: map[string][2]uint64{}, handed: map[string][2]uint64{}, inflight: map[string][2]uint64{}, kicked: map[string]int{}, kickBase: map[string]int{}, refused: map[string]int{}}
+	w := &c15bWorld{x: x, clients: map[int]*c15bClient{}, allowed: map[string][2]uint64{}, handed: map[string][2]uint64{}, inflight: map[string][2]uint64{}, kicked: map[string]int{}, kickBase: map[string]int{}, goneSinceKick: map[string]int{}, refused: map[string]int{}}
 	w.fab = simnet.NewFabric(x, simnet.LinkCfg{
 		Loss: uint64(sc.Get("net_loss", 0)), MinDelay: time.Duration(sc.Get("net_delay_us", 500)) * time.Microsecond, Jitter: 200 * time.Microsecond,
 	})
@@ -288,6 +292,7 @@ func execC15b(x *hysim.Run) {
 	hysim.Go("harness:serve", func() { _ = srv.Serve(); close(w.srvDone) })
 
 	lossy := sc.Get("net_loss", 0) != 0
+	w.lossy = lossy
 	for i, op := range sc.Ops {
 		if x.Violated() {
 			break
@@ -371,12 +376,14 @@ func execC15b(x *hysim.Run) {
 				continue
 			}
 			x.Ev("op%d close slot%d (%s)", i, slot, c.user)
+			w.goneSinceKick[c.user]++
 			_ = c.cl.Close()
 			delete(w.clients, slot)
 		case "blackhole":
 			if c == nil {
 				continue
 			}
+			w.goneSinceKick[c.user]++
 			x.Fault("kill.blackhole")
 			x.Ev("op%d blackhole slot%d (%s) until idle timeout", i, slot, c.user)
 			w.fab.Blackhole(c.ep.LocalAddr().String(), true)
@@ -398,6 +405,7 @@ func execC15b(x *hysim.Run) {
 			// which connection of that user reports next (and is therefore closed) is up to traffic:
 			// drive one report through every connection of that user so the outcome is determined
 			if w.kicked[user] == 0 {
+				w.goneSinceKick[user] = 0
 				w.kickBase[user] = w.refused[user]
 			}
 			w.kicked[user] = 1 // the kick list is a set: several kicks before a report collapse into one
@@ -476,16 +484,27 @@ func (w *c15bWorld) settleKicks(user string) {
 		return
 	}
 	time.Sleep(300 * time.Millisecond)
+	had, found := 0, 0
+	defer func() {
+		// "refused exactly once (which disconnects them)": the refused report came from one of the
+		// user's connections, and all of those are clients of this harness that it did not take
+		// away itself since the kick - so one of them must be gone now
+		if had > 0 && found == 0 && w.goneSinceKick[user] == 0 && !w.lossy && !w.dirty && w.x.StallCount() == 0 && !w.x.Violated() {
+			w.x.Violate("kick-not-disconnected", "a traffic report of kicked user %q was refused, but all %d of their connections are still usable 300 ms later", user, had)
+		}
+	}()
 	for slot, c := range w.clients {
 		if c.user != user {
 			continue
 		}
+		had++
 		pc, err := c.cl.TCP("probe.sim:80")
 		if pc != nil {
 			_ = pc.Close()
 		}
 		if err != nil {
 			w.x.Ev("slot%d (%s) found disconnected after kick: %v", slot, user, err)
+			found++
 			w.x.Probe("kicked-connection-closed")
 			_ = c.cl.Close()
 			delete(w.clients, slot)
